@@ -232,9 +232,22 @@ fn do_request(env: &WorkerEnv, scn: &Scn, req: &Req, thread: usize, idx: usize, 
                     }
                     Some(srv) => {
                         // (half of the single requests go on the wire in an unusual but valid way)
-                        set_http_style(if req.client % 2 == 0 { scn.sched_seed ^ req.client as u64 } else { 0 });
-                        let h = srv.post(doc, am, Duration::from_secs(10));
-                        set_http_style(0);
+                        let mut h = srv.post(doc, am, Duration::from_secs(10));
+                        // the same request in every wire style (all Content-Types, body whole and
+                        // in pieces): one answer; judge one which differs, if there is one
+                        if doc.len() < 200_000 {
+                            let port = srv.port;
+                            let sweep = http_post_sweep(port, doc, am, Duration::from_secs(10));
+                            r.notes.push("request_repeated_in_every_wire_style".into());
+                            if let Some(d) = sweep.into_iter().find(|x| match (x, &h) {
+                                (Some(x), Some(f)) => x.status != f.status || x.body != f.body,
+                                (None, None) => false,
+                                _ => true,
+                            }) {
+                                r.notes.push("wire_styles_answered_differently".into());
+                                h = d;
+                            }
+                        }
                         let alive = srv.alive();
                         if h.is_none() {
                             *guard = None;
